@@ -4,7 +4,13 @@
 From Coq Require Import Arith List Bool String.
 From VQ Require Import Model.Layout Proofs.LayoutProofs.
 From VQ Require Import Glue.Pin_pat_vq_forward Glue.Pin_pat_vq_split Glue.Pin_pat_vq_decode Glue.Pin_pat_euclid_forward Glue.Pin_pat_cosine_forward Glue.Pin_pat_fsq_forward Glue.Pin_pat_fsq_decode Glue.Pin_pat_lfq_forward Glue.Pin_pat_lfq_decode Glue.Pin_pat_rvq_decode Glue.Pin_pat_simvq_forward.
+From VQ Require Import Model.Einops Glue.EinopsGlue.
+From VQ Require Import Proofs.EinopsProofs.
 Import ListNotations.
+
+(* implicit *)
+
+(* implicit *)
 
 (* implicit *)
 Theorem C10_image_pointwise :
@@ -182,3 +188,216 @@ Theorem C10_patterns_simvq :
   pat_simvq_forward.pat_simvq_forward = pinned_pat_simvq_forward.
 Proof. exact (@pin_pat_simvq_forward). Qed.
 Print Assumptions C10_patterns_simvq.
+
+(* implicit *)
+Theorem C10_src_img_in :
+  forall A : Type,
+       exists p : pattern,
+         role_pattern pr_vq.pr_vq "VectorQuantize.forward:x" "rearrange" 1 = @Some pattern p /\
+         wf_rearrange p = true /\
+         (forall (e : env) (X : nat -> nat -> nat -> nat -> A) (b t c : nat),
+          b < e "b" ->
+          t < e "h" * e "w" -> c < e "c" -> @rearr A p e (@of4 A X) [b; t; c] = @img_in A (e "w") X b t c).
+Proof. exact (@EinopsGlue.einops_img_in). Qed.
+Print Assumptions C10_src_img_in.
+
+(* implicit *)
+Theorem C10_src_cfirst_in :
+  forall A : Type,
+       exists p : pattern,
+         role_pattern pr_vq.pr_vq "VectorQuantize.forward:x" "rearrange" 2 = @Some pattern p /\
+         wf_rearrange p = true /\
+         (forall (e : env) (X : nat -> nat -> nat -> A) (b n d : nat),
+          b < e "b" -> n < e "n" -> d < e "d" -> @rearr A p e (@of3 A X) [b; n; d] = @cfirst_in A X b n d).
+Proof. exact (@EinopsGlue.einops_cfirst_in). Qed.
+Print Assumptions C10_src_cfirst_in.
+
+(* implicit *)
+Theorem C10_src_heads_shared_in :
+  forall A : Type,
+       exists p : pattern,
+         role_pattern pr_vq.pr_vq
+           "VectorQuantize.maybe_split_heads_from_input:return@not (self.separate_codebook_per_head)"
+           "rearrange" 0 = @Some pattern p /\
+         wf_rearrange p = true /\
+         (forall (e : env) (X : nat -> nat -> nat -> A) (bh n d : nat),
+          bh < e "b" * e "h" ->
+          n < e "n" ->
+          d < e "d" -> @rearr A p e (@of3 A X) [0; bh; n; d] = @heads_shared_in A (e "h") (e "d") X bh n d).
+Proof. exact (@EinopsGlue.einops_heads_shared_in). Qed.
+Print Assumptions C10_src_heads_shared_in.
+
+(* implicit *)
+Theorem C10_src_heads_sep_in :
+  forall A : Type,
+       exists p : pattern,
+         role_pattern pr_vq.pr_vq
+           "VectorQuantize.maybe_split_heads_from_input:return@self.separate_codebook_per_head" "rearrange" 0 =
+         @Some pattern p /\
+         wf_rearrange p = true /\
+         (forall (e : env) (X : nat -> nat -> nat -> A) (h b n d : nat),
+          h < e "h" ->
+          b < e "b" ->
+          n < e "n" -> d < e "d" -> @rearr A p e (@of3 A X) [h; b; n; d] = @heads_sep_in A (e "d") X h b n d).
+Proof. exact (@EinopsGlue.einops_heads_sep_in). Qed.
+Print Assumptions C10_src_heads_sep_in.
+
+(* implicit *)
+Theorem C10_src_heads_sep_idx :
+  forall A : Type,
+       exists p : pattern,
+         role_pattern pr_vq.pr_vq "VectorQuantize.forward:embed_ind" "rearrange" 0 = @Some pattern p /\
+         wf_rearrange p = true /\
+         (forall (e : env) (J : nat -> nat -> nat -> A) (b n h : nat),
+          b < e "b" -> n < e "n" -> h < e "h" -> @rearr A p e (@of3 A J) [b; n; h] = @heads_sep_idx A J b n h).
+Proof. exact (@EinopsGlue.einops_heads_sep_idx). Qed.
+Print Assumptions C10_src_heads_sep_idx.
+
+(* implicit *)
+Theorem C10_src_heads_shared_idx :
+  forall A : Type,
+       exists p : pattern,
+         role_pattern pr_vq.pr_vq "VectorQuantize.forward:embed_ind" "rearrange" 1 = @Some pattern p /\
+         wf_rearrange p = true /\
+         (forall (e : env) (J : nat -> nat -> A) (b n h : nat),
+          b < e "b" ->
+          n < e "n" -> h < e "h" -> @rearr A p e (@of1_2 A J) [b; n; h] = @heads_shared_idx A (e "h") J b n h).
+Proof. exact (@EinopsGlue.einops_heads_shared_idx). Qed.
+Print Assumptions C10_src_heads_shared_idx.
+
+(* implicit *)
+Theorem C10_src_img_idx_out :
+  forall A : Type,
+       exists p : pattern,
+         role_pattern pr_vq.pr_vq "VectorQuantize.forward:embed_ind" "rearrange" 2 = @Some pattern p /\
+         wf_rearrange p = true /\
+         (forall (e : env) (J : nat -> nat -> A) (b h w : nat),
+          e "..." = 1 ->
+          b < e "b" ->
+          h < e "h" -> w < e "w" -> @rearr A p e (@of2 A J) [b; h; w; 0] = @img_idx_out A (e "w") J b h w).
+Proof. exact (@EinopsGlue.einops_img_idx_out). Qed.
+Print Assumptions C10_src_img_idx_out.
+
+(* implicit *)
+Theorem C10_src_heads_sep_out :
+  forall A : Type,
+       exists p : pattern,
+         role_pattern pr_vq.pr_vq "VectorQuantize.forward:quantize" "rearrange" 0 = @Some pattern p /\
+         wf_rearrange p = true /\
+         (forall (e : env) (Q : nat -> nat -> nat -> nat -> A) (b n x : nat),
+          b < e "b" ->
+          n < e "n" ->
+          x < e "h" * e "d" -> @rearr A p e (@of4 A Q) [b; n; x] = @heads_sep_out A (e "d") Q b n x).
+Proof. exact (@EinopsGlue.einops_heads_sep_out). Qed.
+Print Assumptions C10_src_heads_sep_out.
+
+(* implicit *)
+Theorem C10_src_heads_shared_out :
+  forall A : Type,
+       exists p : pattern,
+         role_pattern pr_vq.pr_vq "VectorQuantize.forward:quantize" "rearrange" 1 = @Some pattern p /\
+         wf_rearrange p = true /\
+         (forall (e : env) (Q : nat -> nat -> nat -> A) (b n x : nat),
+          b < e "b" ->
+          n < e "n" ->
+          x < e "h" * e "d" ->
+          @rearr A p e (@of1_3 A Q) [b; n; x] = @heads_shared_out A (e "h") (e "d") Q b n x).
+Proof. exact (@EinopsGlue.einops_heads_shared_out). Qed.
+Print Assumptions C10_src_heads_shared_out.
+
+(* implicit *)
+Theorem C10_src_cfirst_out :
+  forall A : Type,
+       exists p : pattern,
+         role_pattern pr_vq.pr_vq "VectorQuantize.forward:quantize" "rearrange" 2 = @Some pattern p /\
+         wf_rearrange p = true /\
+         (forall (e : env) (Q : nat -> nat -> nat -> A) (b d n : nat),
+          b < e "b" -> d < e "d" -> n < e "n" -> @rearr A p e (@of3 A Q) [b; d; n] = @cfirst_out A Q b d n).
+Proof. exact (@EinopsGlue.einops_cfirst_out). Qed.
+Print Assumptions C10_src_cfirst_out.
+
+(* implicit *)
+Theorem C10_src_img_out :
+  forall A : Type,
+       exists p : pattern,
+         role_pattern pr_vq.pr_vq "VectorQuantize.forward:quantize" "rearrange" 3 = @Some pattern p /\
+         wf_rearrange p = true /\
+         (forall (e : env) (Q : nat -> nat -> nat -> A) (b c h w : nat),
+          b < e "b" ->
+          c < e "c" ->
+          h < e "h" -> w < e "w" -> @rearr A p e (@of3 A Q) [b; c; h; w] = @img_out A (e "w") Q b c h w).
+Proof. exact (@EinopsGlue.einops_img_out). Qed.
+Print Assumptions C10_src_img_out.
+
+(* implicit *)
+Theorem C10_src_fsq_split :
+  forall A : Type,
+       exists p : pattern,
+         role_pattern pr_scalar.pr_scalar "FSQ.forward:z" "rearrange" 1 = @Some pattern p /\
+         wf_rearrange p = true /\
+         (forall (e : env) (X : nat -> nat -> nat -> A) (b n c d : nat),
+          b < e "b" ->
+          n < e "n" ->
+          c < e "c" -> d < e "d" -> @rearr A p e (@of3 A X) [b; n; c; d] = @cb_split A (e "d") X b n c d).
+Proof. exact (@EinopsGlue.einops_fsq_split). Qed.
+Print Assumptions C10_src_fsq_split.
+
+(* implicit *)
+Theorem C10_src_fsq_merge :
+  forall A : Type,
+       exists p : pattern,
+         role_pattern pr_scalar.pr_scalar "FSQ.forward:codes" "rearrange" 0 = @Some pattern p /\
+         wf_rearrange p = true /\
+         (forall (e : env) (Q : nat -> nat -> nat -> nat -> A) (b n x : nat),
+          b < e "b" ->
+          n < e "n" -> x < e "c" * e "d" -> @rearr A p e (@of4 A Q) [b; n; x] = @cb_merge A (e "d") Q b n x).
+Proof. exact (@EinopsGlue.einops_fsq_merge). Qed.
+Print Assumptions C10_src_fsq_merge.
+
+(* implicit *)
+Theorem C10_src_lfq_split :
+  forall A : Type,
+       exists p : pattern,
+         role_pattern pr_scalar.pr_scalar "LFQ.forward:x" "rearrange" 1 = @Some pattern p /\
+         wf_rearrange p = true /\
+         (forall (e : env) (X : nat -> nat -> nat -> A) (b n c d : nat),
+          b < e "b" ->
+          n < e "n" ->
+          c < e "c" -> d < e "d" -> @rearr A p e (@of3 A X) [b; n; c; d] = @cb_split A (e "d") X b n c d).
+Proof. exact (@EinopsGlue.einops_lfq_split). Qed.
+Print Assumptions C10_src_lfq_split.
+
+(* implicit *)
+Theorem C10_src_lfq_merge :
+  forall A : Type,
+       exists p : pattern,
+         role_pattern pr_scalar.pr_scalar "LFQ.forward:x" "rearrange" 2 = @Some pattern p /\
+         wf_rearrange p = true /\
+         (forall (e : env) (Q : nat -> nat -> nat -> nat -> A) (b n x : nat),
+          b < e "b" ->
+          n < e "n" -> x < e "c" * e "d" -> @rearr A p e (@of4 A Q) [b; n; x] = @cb_merge A (e "d") Q b n x).
+Proof. exact (@EinopsGlue.einops_lfq_merge). Qed.
+Print Assumptions C10_src_lfq_merge.
+
+(* implicit *)
+Theorem C10_rearrange_swap_inverse :
+  forall (p : pattern) (e : env) (A : Type) (X : list nat -> A) (i : list nat),
+       wf_rearrange p = true ->
+       env_pos e (lhs p) -> in_range e (lhs p) i -> @rearr A (swap p) e (@rearr A p e X) i = X i.
+Proof. exact (@EinopsProofs.rearrange_swap_inverse). Qed.
+Print Assumptions C10_rearrange_swap_inverse.
+
+Theorem C10_rearrange_in_range :
+  forall (p : pattern) (e : env) (o : list nat),
+       wf_rearrange p = true ->
+       env_pos e (rhs p) -> in_range e (rhs p) o -> in_range e (lhs p) (index_map p e o).
+Proof. exact (@EinopsProofs.rearrange_in_range). Qed.
+Print Assumptions C10_rearrange_in_range.
+
+Theorem C10_rearrange_injective :
+  forall (p : pattern) (e : env) (o1 o2 : list nat),
+       wf_rearrange p = true ->
+       env_pos e (rhs p) ->
+       in_range e (rhs p) o1 -> in_range e (rhs p) o2 -> index_map p e o1 = index_map p e o2 -> o1 = o2.
+Proof. exact (@EinopsProofs.rearrange_injective). Qed.
+Print Assumptions C10_rearrange_injective.
